@@ -111,6 +111,8 @@ func (m *runtimeContextManager) PushContext(ctx RuntimeContextDef) {
 	m.hardLimits = m.hardLimits.Remove(m.usedResources).Merge(ctx.HardLimits)
 	m.softLimits = m.hardLimits.Merge(m.softLimits).Merge(ctx.SoftLimits)
 	m.usedResources = RuntimeResources{}
+	// The CPU count restarts from 0: so must the count at which the clock is next read.
+	m.nextCpuThreshold = 0
 	m.requiredFlags |= ctx.RequiredFlags
 
 	if ctx.HardLimits.Cpu > 0 {
